@@ -4,6 +4,7 @@ import (
 	"fmt"
 	"go/token"
 	"go/types"
+	"strings"
 
 	"golang.org/x/tools/go/ssa"
 )
@@ -311,4 +312,45 @@ func derivesFrom(v, src ssa.Value) bool {
 		return derivesFrom(cv.X, src)
 	}
 	return false
+}
+
+// checkSetOnlyAtConstruction (A4, class IMM): the field is assigned only while the struct it belongs
+// to is still private to the function that allocated it (composite literal or fresh allocation in a
+// constructor). Any later assignment changes, for every user of the object, what its methods iterate
+// or delegate to (e.g. a children list that is emptied on Close turns every later call into a
+// silent no-op that reports success).
+func (c *Ctx) checkSetOnlyAtConstruction(rule, short, typ string, fields ...string) {
+	for _, name := range fields {
+		fld := c.field(short, typ, name)
+		if fld == nil {
+			c.missing(rule, short+"."+typ+"."+name)
+			continue
+		}
+		key := pkgPath(short)[len(modPath):] + "." + typ + "." + name
+		key = strings.TrimPrefix(key, "/")
+		nStores, okAll := 0, true
+		for _, ref := range c.fieldRefs(fld) {
+			fa, ok := ref.(*ssa.FieldAddr)
+			if !ok || fa.Referrers() == nil {
+				continue
+			}
+			for _, u := range *fa.Referrers() {
+				st, isSt := u.(*ssa.Store)
+				if !isSt || st.Addr != ssa.Value(fa) {
+					continue
+				}
+				nStores++
+				root := canon(rootOf(fa.X))
+				al, isAl := root.(*ssa.Alloc)
+				if isAl && al.Parent() == st.Parent() {
+					continue
+				}
+				okAll = false
+				c.bad(rule, key, st.Pos(), "the field "+typ+"."+name+" is assigned after construction ("+c.fnKey(st.Parent())+"): every method that iterates or delegates to it changes behaviour for all later calls - with an emptied list they silently do nothing and report success", c.describe(st))
+			}
+		}
+		if okAll {
+			c.ok(rule, key, fld.Pos(), fmt.Sprintf("assigned only while the struct is private to its constructor (%d store(s))", nStores))
+		}
+	}
 }
